@@ -56,7 +56,7 @@ typedef vrt::u64 u64;
 typedef unsigned int u32;
 
 // ------------------------------------------------------------------ statistical thresholds
-// Error probability per statistical comparison.  The harness makes < 2e5 (quick) / 3e6 (thorough) such
+// Error probability per statistical comparison.  The harness makes about 1.3e4 (quick) / 4e5 (thorough) such
 // comparisons per run (tallied as "stat-comparisons"), so a run raises a false alarm with probability < 1e-6.
 const double DELTA = 1e-13;
 const double LOG2D = 30.626796; // ln(2/DELTA), rounded up
@@ -422,6 +422,9 @@ void caseSeedRepro(vrt::Case& c)
   // disturb the generator between the runs: the second run must depend on the seed only
   size_t extra = 1 + c.index % 5;
   for (size_t i = 0; i < extra; ++i) (void)RandomTools::giveRandomNumberBetweenZeroAndEntry(1.0);
+  // ... including state a sampler might keep outside the generator (std::normal_distribution produces its values in pairs
+  // and keeps the second one): 0 or 1 extra normal draw, so that both parities occur over the 16 seeds
+  for (size_t i = 0; i < c.index % 2; ++i) (void)RandomTools::randGaussian(0., 2.);
   vrt::step("setSeed + program, second run");
   RandomTools::setSeed(s);
   reproProgram(b, c.rng, objs);
@@ -528,6 +531,23 @@ void judgeRandC(const string& family, const string& route, const string& what, u
   if (!vrt::expect(o.returned(), "randC.returns", family + ":" + route, [&] { return what + " seed " + str(seed) + ": randC " + o.text(); })) return;
   double dl = d.getLowerBound(), du = d.getUpperBound();
   double Fl = d.pProb(dl), Fu = d.pProb(du);
+  // Resolution of doubles at an excluded, finite, non-zero domain end: a real draw closer to the end than half an ulp
+  // rounds onto it and is rejected by the class.  With a shape of 0.1 several percent of the mass lie there
+  // (P(Gamma(0.1) < 2e-16) = 3%), which is a property of the number format, not of the sampler: the law is then not judged.
+  {
+    const double eps = std::numeric_limits<double>::epsilon();
+    double mass = 0;
+    if (std::isfinite(dl) && dl != 0 && d.strictLowerBound()) mass += d.pProb(dl + 4 * eps * std::fabs(dl)) - Fl;
+    if (std::isfinite(du) && du != 0 && d.strictUpperBound()) mass += Fu - d.pProb(du - 4 * eps * std::fabs(du));
+    if (!(mass <= 1e-3))
+    {
+      size_t off = 0;
+      for (double v : xs) off += !(std::isfinite(v) && v >= lo && v <= hi);
+      vrt::expect(off == 0, "law.support", family + "::randC:" + route, [&] { return what + " seed " + str(seed) + ": " + str(off) + " draws are not finite or outside [" + str(lo) + "," + str(hi) + "]"; });
+      vrt::tally("law-not-judged:mass-within-4ulp-of-an-excluded-domain-end:" + family);
+      return;
+    }
+  }
   function<double(double)> alt;
   if (std::isfinite(Fl) && std::isfinite(Fu) && Fu - Fl > 0.5 && (Fl > 0 || Fu < 1))
     alt = [&d, Fl, Fu](double x) { double f = (d.pProb(x) - Fl) / (Fu - Fl); return f < 0 ? 0. : f > 1 ? 1. : f; };
@@ -1558,17 +1578,17 @@ int main(int argc, char** argv)
   const size_t nExh = exhIndex().rows.size();
   vector<vrt::Group> groups = {
     { "seed-repro", 16, 16, caseSeedRepro, 600, true },
-    { "cont-sampler", 360, 3000, caseContSampler, 600, false },
-    { "dist-randC", 480, 4000, caseDistRandC, 900, false },
-    { "dist-rand", 400, 3000, caseDistRand, 600, false },
-    { "picks", 520, 4000, casePicks, 600, false },
+    { "cont-sampler", 360, 9000, caseContSampler, 600, false },
+    { "dist-randC", 480, 12000, caseDistRandC, 900, false },
+    { "dist-rand", 400, 9000, caseDistRand, 600, false },
+    { "picks", 520, 12000, casePicks, 600, false },
     { "sample-exact", 4 * 13 * 15, 4 * 13 * 15, caseSampleExact, 600, true },
     { "pick-exact", 3 * 13, 3 * 13, casePickExact, 600, true },
     { "rcont2-exhaustive", nExh, nExh, caseRcontExhaustive, 1800, true },
-    { "rcont2-random", 1500, 40000, caseRcontRandom, 600, false },
-    { "ctest-pvalue", 3000, 100000, caseCtest, 600, false },
-    { "hmm-sample", 120, 1000, caseHmm, 600, false },
-    { "dirichlet", 48, 300, caseDirichlet, 600, false },
+    { "rcont2-random", 1500, 120000, caseRcontRandom, 600, false },
+    { "ctest-pvalue", 3000, 300000, caseCtest, 600, false },
+    { "hmm-sample", 120, 3000, caseHmm, 600, false },
+    { "dirichlet", 48, 900, caseDirichlet, 600, false },
   };
   vrt::Meta meta;
   meta.rule = "seed-repro: the run seed and 15 derived seeds, one fixed program of every sampler run twice after setSeed. cont-sampler / dist-randC / dist-rand / picks / hmm-sample / dirichlet: "
@@ -1581,6 +1601,7 @@ int main(int argc, char** argv)
     "the library's own cdf (pNorm, pGamma, pBeta, pProb) is the reference for the same parameters, trusted to 2e-3 in cdf value; its accuracy is another property (a cdf returning values outside [0,1] at sampled points is tallied, not judged)",
     "randExponential's argument is the mean (its documentation), randGaussian's second argument the variance, randGamma's beta is the beta of pGamma (a rate), GaussianDiscreteDistribution's sigma the standard deviation",
     "a distribution whose randC rejects draws outside the class's own domain may follow pProb conditioned on [getLowerBound, getUpperBound]; user-restricted domains are not exercised",
+    "draws are judged up to 4 ulp of their value; randC of a family with an excluded finite non-zero domain end is judged in law only when pProb puts <= 1e-3 of the mass within 4 ulp of that end (shape 0.1 puts 3% there: resolution of doubles)",
     "an event of probability <= 2^-53 per draw (the uniform variate hitting a cumulated weight exactly) is neglected in the zero-weight-never-drawn clause",
     "weighted sampling without replacement is judged in law for the first two positions and only for requests not exceeding the number of positive weights",
     "an empty request on an empty source, and a contingency table with an empty row/column, may return or raise a library exception",
